@@ -119,8 +119,11 @@ func runSet(out *vfd.Out, c map[string]any) {
 		})
 		out.Emit(map[string]any{"ev": "matrix", "c": vfd.I(c["c"]), "m": m, "panic": b2i(p), "pmsg": msg})
 	}
-	for _, a := range ints(c["probes"]) {
-		rec := map[string]any{"ev": "probe", "c": vfd.I(c["c"]), "a": a}
+	for _, praw := range c["probes"].([]any) {
+		pm := praw.(map[string]any)
+		a := vfd.I(pm["a"])
+		kq := ints(pm["kq"])
+		rec := map[string]any{"ev": "probe", "c": vfd.I(c["c"]), "a": a, "kq": kq}
 		isn, idx, all, key := []int{}, []int{}, []int{}, []int{}
 		hasx := 0
 		p, msg := vfd.Guard(func() {
@@ -140,7 +143,7 @@ func runSet(out *vfd.Out, c map[string]any) {
 					all = append(all, id)
 				}
 				vm := &validator.ValidatorManager{Grid: g, SelfIndex: a, SelfKey: g.Current[a].Ed25519}
-				for id := 0; id < u; id++ {
+				for _, id := range kq {
 					key = append(key, b2i(vm.IsNeighbor(keys[id])))
 				}
 				nb := []int{}
